@@ -203,8 +203,9 @@ def check_c06(run: Run, prog: Program) -> None:
     run.clause = (
         "decides the kind and cache clauses only: (K4) the result of every __apply__ is of the receiver's kind and the cached "
         "supporting line/plane of polytopes is recomputed on the result for every concrete class by MRO; (K3) the "
-        "reconstructions in inverse/__pow__ are accepted by every inheriting transformation class. NOT decided: associativity, "
-        "inverse, powers, identity (numeric) - a wrong matrix product order is invisible to this check."
+        "reconstructions in inverse/__pow__ are accepted by every inheriting transformation class; (E19.act) the inverse undoes the action: "
+        "TransformationTensor.inverse is interpreted with `inv` read as the adjugate of a symbolic matrix T, and applying it to t*x gives a non-zero polynomial multiple "
+        "of x for points, lines and planes of the plane and of 3-space. NOT decided: associativity, powers, identity, collections."
     )
     n4 = kinds.rule_K4(run, prog)
     kinds.rule_K4m(run, prog)
@@ -218,6 +219,9 @@ def check_c06(run: Run, prog: Program) -> None:
     n3 = kinds.rule_K3(run, prog, family=prog.cls("TransformationTensor"))
     run.floor("__apply__ implementations and derived caches", n4, 6)
     run.stats.update({"apply_obligations": n4, "reconstruction_obligations": n3})
+    from geolint import quadforms as _qf
+
+    run.stats["action_value_identities"] = _qf.rule_action_values(run, prog, part="inverse")
 
 
 # ================================================================================================ C09
@@ -387,8 +391,11 @@ def check_c07(run: Run, prog: Program) -> None:
         "decides the variance clauses only: (V2) the constructors assign the index types C07 names (points covariant, hyperplanes and "
         "quadrics contravariant, dual quadrics covariant, transformations (1,1)) for every concrete class, by constant propagation "
         "along the MRO; (V3) the generic action contracts covariant indices with the matrix and contravariant indices with its inverse, "
-        "tensor_shape[0] resp. [1] times. NOT decided: commutation with join/meet, the basis-point transform of subspaces, cross-ratio "
-        "invariance (numeric)."
+        "tensor_shape[0] resp. [1] times. (E19.act) The property itself for the generic action, as polynomial identities in the entries of a symbolic matrix T "
+        "(Tensor.__apply__, TransformationTensor.inverse and the duality dispatcher interpreted; `inv` read as the adjugate): (t*h).(t*p) = det T (h.p) for a point and "
+        "a hyperplane of the plane and of 3-space, t*join(p, q) ~ join(t*p, t*q), t*meet(l, m) ~ meet(t*l, t*m), and (t*x)^T (t*Q) (t*x) = det T^2 (x^T Q x) for a conic "
+        "with a point and for a dual conic with a line. NOT decided: lines of 3-space and polytopes (their __apply__ overrides are covered by the kind rules only), "
+        "cross-ratio invariance (follows from the closed form of C11 and the identities above, not checked as such), collections."
     )
     n2 = variance.rule_V2(run, prog)
     n3 = variance.rule_V3(run, prog)
@@ -408,6 +415,9 @@ def check_c07(run: Run, prog: Program) -> None:
         run.add("E4.V3", ap.short if ap else "Tensor.__apply__", "diagram edges", UNDECIDED,
                 "the generic action no longer builds its diagram from (source, target) tuples; the edge discipline is not judged", ap.loc if ap else "")
     run.stats.update({"constructor_chains": n2, "apply_edges": n3})
+    from geolint import quadforms as _qf
+
+    run.stats["action_value_identities"] = _qf.rule_action_values(run, prog, part="incidence")
 
 
 # ================================================================================================ C08
